@@ -218,6 +218,13 @@ def props_of(conj, sig, group):
     kind = sig.get('kind', '-')
     op = sig.get('op', '-')
     ps = set()
+    if kind == 'handles':
+        ps.add('C14')
+        if conj == 'nopanic':
+            ps.add('C13')
+        if conj == 'published' or op in ('write', 'flush', 'close_w', 'seek_w', 'open_append', 'open_create'):
+            ps.add('C04')
+        return ps
     if kind == 'join':
         ps.add('C06')
         if conj == 'nopanic':
